@@ -91,6 +91,29 @@ def tlc(specdir, module, cfg_text, extra=(), timeout=1200, workers=None, files=(
     return res
 
 
+def apalache(specdir, module, args, timeout=900, name=None):
+    """Run `apalache-mc check` on a scratch copy of specdir; returns (outcome, output) with outcome in NoError | Error | failed."""
+    d = subdir('apa-%s-%d' % (name or module, int(time.time() * 1000) % 10 ** 9))
+    for f in os.listdir(specdir):
+        if f.endswith('.tla'):
+            shutil.copy(os.path.join(specdir, f), d)
+    env = dict(os.environ)
+    env['JAVA_TOOL_OPTIONS'] = '-Djava.io.tmpdir=%s' % d
+    cmd = ['timeout', str(timeout), 'apalache-mc', 'check', '--out-dir=' + os.path.join(d, 'out'), '--run-dir=' + os.path.join(d, 'run')] + list(args) + [module + '.tla']
+    try:
+        p = subprocess.run(cmd, cwd=d, env=env, stdout=subprocess.PIPE, stderr=subprocess.STDOUT, text=True)
+    except FileNotFoundError:
+        return 'failed', 'apalache-mc not found'
+    out = p.stdout
+    shutil.rmtree(os.path.join(d, 'out'), ignore_errors=True)
+    shutil.rmtree(os.path.join(d, 'run'), ignore_errors=True)
+    if 'The outcome is: NoError' in out:
+        return 'NoError', out
+    if 'The outcome is: Error' in out:
+        return 'Error', out
+    return 'failed', out[-1500:]
+
+
 def cfg(constants, spec='Spec', invariants=(), properties=(), view=None, postcondition=None, constraint=None, extra=''):
     lines = ['CONSTANTS']
     for k, v in constants.items():
